@@ -157,6 +157,11 @@ func catalogue() []edit {
 		add("undefined-constant-identifier", fmt.Sprint(i), s)
 	}
 	es = append(es, edit{rule: "ambiguous-constant-identifier", variant: "enum-named-like-include", snippet: "enum c { CC }\nconst i32 ZI = c.CC", targets: "main,b"})
+	// two includes with the same base name that both define the name
+	sameBase := map[string]string{"p/shared.thrift": "const i32 LIMIT = 1\nenum Mode { A, B }\n", "q/shared.thrift": "const i32 LIMIT = 2\nenum Mode { A, B }\n"}
+	es = append(es, edit{rule: "ambiguous-constant-identifier", variant: "same-base-name-includes-const", prepend: "include \"p/shared.thrift\"\ninclude \"q/shared.thrift\"\n", snippet: "const i32 ZI = shared.LIMIT", extra: sameBase})
+	es = append(es, edit{rule: "ambiguous-constant-identifier", variant: "same-base-name-includes-enum-value", prepend: "include \"p/shared.thrift\"\ninclude \"q/shared.thrift\"\n", snippet: "const i32 ZI = shared.Mode.B", extra: sameBase})
+	es = append(es, edit{rule: "ambiguous-constant-identifier", variant: "same-base-name-includes-default", prepend: "include \"p/shared.thrift\"\ninclude \"q/shared.thrift\"\n", snippet: "struct ZT { 1: i32 a = shared.LIMIT }", extra: sameBase})
 	es = append(es, edit{rule: "ambiguous-constant-identifier", variant: "enum-named-like-include-b", snippet: "enum b { BE }\nconst i32 ZI = b.BE", targets: "main"})
 	// --- values of the wrong kind
 	wrong := []struct{ n, t, v string }{
